@@ -56,8 +56,22 @@ func zzImage(log [][]zzOp, k int) *zzMemDS {
 	return d
 }
 
-func (d *zzMemDS) gate(what string) {
+// zzTagKey: a harness may tag the context of a caller ("r0", "del", ...); the tag becomes part of the gate
+// labels of the datastore operations made on its behalf, so that two goroutines reading the same key are
+// told apart by the native replay coordinator.
+type zzTagKey struct{}
+
+func zzTagged(ctx context.Context, tag string) context.Context {
+	return context.WithValue(ctx, zzTagKey{}, tag)
+}
+
+func (d *zzMemDS) gate(ctx context.Context, what string) {
 	if d.gates {
+		if ctx != nil {
+			if tag, ok := ctx.Value(zzTagKey{}).(string); ok {
+				what = tag + ":" + what
+			}
+		}
 		zz.Gate(what)
 	}
 }
@@ -82,15 +96,15 @@ func (d *zzMemDS) apply(ops []zzOp) {
 	d.log = append(d.log, ops)
 }
 
-func (d *zzMemDS) Get(_ context.Context, k datastore.Key) ([]byte, error) {
-	d.gate("ds.get:" + k.String())
+func (d *zzMemDS) Get(ctx context.Context, k datastore.Key) ([]byte, error) {
+	d.gate(ctx, "ds.get:"+k.String())
 	d.mu.Lock()
 	d.reads++
 	v, ok := d.m[k.String()]
 	d.mu.Unlock()
 	if d.gatesAfter {
 		// a second scheduling point between the read and the caller seeing its result
-		d.gate("ds.got:" + k.String())
+		d.gate(ctx, "ds.got:"+k.String())
 	}
 	if !ok {
 		return nil, datastore.ErrNotFound
@@ -98,8 +112,8 @@ func (d *zzMemDS) Get(_ context.Context, k datastore.Key) ([]byte, error) {
 	return v, nil
 }
 
-func (d *zzMemDS) Has(_ context.Context, k datastore.Key) (bool, error) {
-	d.gate("ds.has:" + k.String())
+func (d *zzMemDS) Has(ctx context.Context, k datastore.Key) (bool, error) {
+	d.gate(ctx, "ds.has:"+k.String())
 	d.mu.Lock()
 	_, ok := d.m[k.String()]
 	d.mu.Unlock()
@@ -120,8 +134,8 @@ func (d *zzMemDS) Query(context.Context, query.Query) (query.Results, error) {
 	return nil, errors.New("zz: query unsupported")
 }
 
-func (d *zzMemDS) Put(_ context.Context, k datastore.Key, v []byte) error {
-	d.gate("ds.put:" + k.String())
+func (d *zzMemDS) Put(ctx context.Context, k datastore.Key, v []byte) error {
+	d.gate(ctx, "ds.put:"+k.String())
 	if d.failNow() {
 		return zzErrWrite
 	}
@@ -129,8 +143,8 @@ func (d *zzMemDS) Put(_ context.Context, k datastore.Key, v []byte) error {
 	return nil
 }
 
-func (d *zzMemDS) Delete(_ context.Context, k datastore.Key) error {
-	d.gate("ds.delete:" + k.String())
+func (d *zzMemDS) Delete(ctx context.Context, k datastore.Key) error {
+	d.gate(ctx, "ds.delete:"+k.String())
 	if d.failNow() {
 		return zzErrWrite
 	}
@@ -158,8 +172,8 @@ func (b *zzBatch) Delete(_ context.Context, k datastore.Key) error {
 	return nil
 }
 
-func (b *zzBatch) Commit(context.Context) error {
-	b.d.gate("ds.commit:" + zzItoa(len(b.ops))) // the size tells the flush loop's commit from a deleter's (often empty) one
+func (b *zzBatch) Commit(ctx context.Context) error {
+	b.d.gate(ctx, "ds.commit:"+zzItoa(len(b.ops))) // the size tells the flush loop's commit from a deleter's (often empty) one
 	if len(b.ops) == 0 {
 		return nil
 	}
@@ -190,8 +204,8 @@ type zzTxn struct {
 	ops  []zzOp
 }
 
-func (t *zzTxn) Get(_ context.Context, k datastore.Key) ([]byte, error) {
-	t.d.gate("txn.get:" + k.String())
+func (t *zzTxn) Get(ctx context.Context, k datastore.Key) ([]byte, error) {
+	t.d.gate(ctx, "txn.get:"+k.String())
 	v, ok := t.snap[k.String()]
 	if !ok {
 		return nil, datastore.ErrNotFound
